@@ -135,6 +135,14 @@ CLAIMED["C14"] = dict(cat="other", technique="whole-program who-writes/who-reads
         "anchor (raising SIGINT at enumerated points) is a dynamic instrument and is deliberately not used.",
    note="Assumes glibc signal() restarts system calls (SA_RESTART) and that a volatile bool store is atomic. HDF5 library internals are not analysed.",
    ref="DESIGN.md §3 C14")
+CLAIMED["C12"] = dict(cat="other", technique="interprocedural read/write effect analysis lifted to the objects of main; control/data dependence of state-writing calls on observer inputs; who-may-call for nondeterminism sources",
+   text="Decides non-interference between observation and simulation for every cadence, file name, verbosity and tracking set: every call in the output block of the loop may write "
+        "only locations the simulation never reads (the radiation field is shown to be handed only to the results file); every call of the loop that writes simulation state runs under "
+        "conditions and with arguments that mention no observer input, and the variables that steer the physics are computed without them; tracked particles are passed only to "
+        "applyToAll/appendTracks, which write particles and the tracking RNG only; clocks and random_device are called only from a frozen list of functions outside the deterministic "
+        "physics; FFT plans come only from prepareFFT, wisdom first. Bit-identity of two concrete executions additionally needs deterministic arithmetic and FFTW, which is assumed, not decided.",
+   note="State/observer classification tables are in the rule file with reasons. CPU, non-GUI build. Noise of DynamicRFKickMap is outside the statement (deterministic RF).",
+   ref="DESIGN.md §3 C12")
 NOT_YET = "check not built yet in this round (static rule designed in DESIGN.md §3, not implemented)"
 NA = {}
 
